@@ -54,7 +54,7 @@ func init() {
 	s2Check("C01", "exploration", "runtime monitoring: PRNG histories on the real controllers, end state vs sequential transaction model + per-transaction merge-pattern monitor over the event log",
 		s2Rule, 150, 6000, map[string]int64{"multi_target_transactions": 200, "multi_target_aborted": 30, "executions_reaching_final_state": 100, "executions_with_a_process_kill": 15},
 		func(c *fw.Case) *engine.Profile {
-			p := &engine.Profile{Targets: two, MinOps: 4, MaxOps: 9, PMulti: 80, PPoison: 25, PEq: 15, PDevReject: 5, PDelete: 25, PRollback: 8, PEnv: 10, PNoWait: 40, PSync: 20, PStartOffline: 15, PDevFault: 5, Paths: "rich"}
+			p := &engine.Profile{Targets: two, MinOps: 4, MaxOps: 9, PMulti: 80, PPoison: 25, PEq: 15, PDevReject: 5, PDelete: 25, PRollback: 8, PEnv: 10, PNoWait: 40, PSync: 20, PStartOffline: 15, PDevFault: 5, PSerializable: 25, Paths: "rich"}
 			if c.Index%3 == 0 {
 				p.Targets = three
 			}
@@ -76,7 +76,7 @@ func init() {
 	s2Check("C02", "exploration", "runtime monitoring: online order monitor over decorated store / device calls (merge order, push order, push-after-merge, index monotonicity)",
 		s2Rule, 150, 6000, map[string]int64{"overlapping_proposal_pairs": 200, "proposal_pushes_observed": 300, "merges_observed": 300, "executions_with_a_process_kill": 15},
 		func(c *fw.Case) *engine.Profile {
-			p := &engine.Profile{Targets: two, MinOps: 5, MaxOps: 12, PMulti: 30, PPoison: 10, PEq: 5, PDevReject: 8, PDelete: 25, PRollback: 8, PEnv: 20, PNoWait: 85, PSync: 10, PStartOffline: 35, PDevFault: 15, Paths: "rich"}
+			p := &engine.Profile{Targets: two, MinOps: 5, MaxOps: 12, PMulti: 30, PPoison: 10, PEq: 5, PDevReject: 8, PDelete: 25, PRollback: 8, PEnv: 20, PNoWait: 85, PSync: 10, PStartOffline: 35, PDevFault: 15, PSerializable: 25, Paths: "rich"}
 			if c.Index%2 == 1 {
 				p.PStoreFault = 15
 			}
@@ -92,12 +92,12 @@ func init() {
 	s2Check("C04", "fault_enumeration", "runtime monitoring: device content vs applied-configuration model after PRNG fault sequences (offline, late connection, restart-with-empty-state, connection replacement); re-sync gate monitor",
 		s2Rule, 150, 6000, map[string]int64{"resync_pushes_observed": 100, "mastership_changes": 200, "executions_reaching_final_state": 100},
 		func(c *fw.Case) *engine.Profile {
-			return &engine.Profile{Targets: two, MinOps: 4, MaxOps: 10, PMulti: 25, PPoison: 10, PEq: 5, PDevReject: 12, PDelete: 35, PRollback: 12, PEnv: 60, PNoWait: 30, PSync: 15, PStartOffline: 50, PDevFault: 10, Paths: "rich"}
+			return &engine.Profile{Targets: two, MinOps: 4, MaxOps: 10, PMulti: 25, PPoison: 10, PEq: 5, PDevReject: 12, PDelete: 35, PRollback: 12, PEnv: 60, PNoWait: 30, PSync: 15, PStartOffline: 50, PDevFault: 10, PSerializable: 25, Paths: "rich"}
 		})
 	s2Check("C06", "exploration", "runtime monitoring: rollback verdicts, stored configuration and device vs the model's pre-change snapshots",
 		s2Rule, 150, 6000, map[string]int64{"rollbacks": 250, "executions_reaching_final_state": 100},
 		func(c *fw.Case) *engine.Profile {
-			p := &engine.Profile{Targets: two, MinOps: 4, MaxOps: 10, PMulti: 30, PPoison: 8, PEq: 5, PDevReject: 5, PDelete: 40, PRollback: 40, PEnv: 10, PNoWait: 15, PSync: 30, PStartOffline: 10, PDevFault: 5, Paths: "rich"}
+			p := &engine.Profile{Targets: two, MinOps: 4, MaxOps: 10, PMulti: 30, PPoison: 8, PEq: 5, PDevReject: 5, PDelete: 40, PRollback: 40, PEnv: 10, PNoWait: 15, PSync: 30, PStartOffline: 10, PDevFault: 5, PSerializable: 25, Paths: "rich"}
 			if c.Index%3 == 0 {
 				// changes validated while their predecessor is committed but not yet applied
 				p.PStartOffline, p.PEnv, p.PNoWait = 60, 25, 50
@@ -114,7 +114,7 @@ func init() {
 	s2Check("C09", "exploration", "runtime monitoring: stability detection + fixed-point pass (re-reconcile every object with fresh reconcilers) on the real controllers under schedule perturbation",
 		s2Rule, 200, 8000, map[string]int64{"fixed_point_passes": 120, "executions_reaching_final_state": 120},
 		func(c *fw.Case) *engine.Profile {
-			p := &engine.Profile{Targets: two, MinOps: 4, MaxOps: 11, PMulti: 35, PPoison: 20, PEq: 10, PDevReject: 10, PDelete: 25, PRollback: 18, PEnv: 25, PNoWait: 60, PSync: 20, PStartOffline: 40, PDevFault: 12, Paths: "rich"}
+			p := &engine.Profile{Targets: two, MinOps: 4, MaxOps: 11, PMulti: 35, PPoison: 20, PEq: 10, PDevReject: 10, PDelete: 25, PRollback: 18, PEnv: 25, PNoWait: 60, PSync: 20, PStartOffline: 40, PDevFault: 12, PSerializable: 25, Paths: "rich"}
 			if c.Index%2 == 1 {
 				p.PStoreFault = 12
 			} else {
@@ -125,7 +125,7 @@ func init() {
 	s2Check("C10", "fault_enumeration", "runtime monitoring: online mastership monitor (terms, master changes, election id and connection of every device request against the configuration version its task read, re-sync gate)",
 		s2Rule, 150, 6000, map[string]int64{"mastership_changes": 300, "device_requests_checked": 500, "elections_checked": 300},
 		func(c *fw.Case) *engine.Profile {
-			p := &engine.Profile{Targets: two, MinOps: 4, MaxOps: 9, PMulti: 25, PPoison: 8, PEq: 3, PDevReject: 5, PDelete: 25, PRollback: 8, PEnv: 85, PNoWait: 50, PSync: 10, PStartOffline: 40, PDevFault: 10, Paths: "basic"}
+			p := &engine.Profile{Targets: two, MinOps: 4, MaxOps: 9, PMulti: 25, PPoison: 8, PEq: 3, PDevReject: 5, PDelete: 25, PRollback: 8, PEnv: 85, PNoWait: 50, PSync: 10, PStartOffline: 40, PDevFault: 10, PSerializable: 25, Paths: "basic"}
 			if c.Index%2 == 1 {
 				p.PForeign = 25 // competing relations: another onos-config node's CONTROLS relation comes and goes
 			}
@@ -140,7 +140,7 @@ func init() {
 		s2Rule+"; the device's refusal code cycles through the 12 non-transient gRPC codes by case index, transient bursts (Unavailable, Canceled, DeadlineExceeded, length 1..3) are injected at random positions",
 		180, 6000, map[string]int64{"tx_outcome_apply-failed": 60, "executions_reaching_final_state": 120},
 		func(c *fw.Case) *engine.Profile {
-			p := &engine.Profile{Targets: two, MinOps: 4, MaxOps: 9, PMulti: 35, PPoison: 5, PEq: 3, PDevReject: 35, PDelete: 20, PRollback: 8, PEnv: 10, PNoWait: 40, PSync: 40, PStartOffline: 15, PDevFault: 40, Paths: "basic"}
+			p := &engine.Profile{Targets: two, MinOps: 4, MaxOps: 9, PMulti: 35, PPoison: 5, PEq: 3, PDevReject: 35, PDelete: 20, PRollback: 8, PEnv: 10, PNoWait: 40, PSync: 40, PStartOffline: 15, PDevFault: 40, PSerializable: 25, Paths: "basic"}
 			p.RejectCode = refusals[c.Index%len(refusals)]
 			if c.Index%3 == 1 {
 				p.PStoreFault = 15
@@ -283,7 +283,7 @@ func init() {
 		},
 		Run: func(c *fw.Case) {
 			i := c.Index
-			p := &engine.Profile{Targets: []string{"t1", "t2"}, MinOps: 5, MaxOps: 12, PMulti: 25, PPoison: 22, PEq: 25, PDevReject: 3, PDelete: 30, PRollback: 12, PEnv: 8, PNoWait: 75, PSync: 10, PStartOffline: 15, PDevFault: 3, Paths: "rich"}
+			p := &engine.Profile{Targets: []string{"t1", "t2"}, MinOps: 5, MaxOps: 12, PMulti: 25, PPoison: 22, PEq: 25, PDevReject: 3, PDelete: 30, PRollback: 12, PEnv: 8, PNoWait: 75, PSync: 10, PStartOffline: 15, PDevFault: 3, PSerializable: 25, Paths: "rich"}
 			if i%2 == 0 {
 				p.Targets = []string{"t1"}
 			}
